@@ -14,7 +14,13 @@ import (
 	"time"
 )
 
-const Root = "/verif"
+// Root is the verif directory (VERIF_ROOT, default /verif).
+var Root = func() string {
+	if r := os.Getenv("VERIF_ROOT"); r != "" {
+		return r
+	}
+	return "/verif"
+}()
 
 type Finding struct {
 	Property  string `json:"property"`
